@@ -376,7 +376,7 @@ Fixpoint walk (chk : step_chk) (prev : snapshot) (steps : list (sctx * sop)) (ob
   | _, _ => false
   end.
 
-Definition snap0 (c : scase) : snapshot := snap store0 (sc_colls c) (sc_keys c) (sc_xnames c).
+Definition snap0 (c : scase) : snapshot := with_next (snap store0 (sc_colls c) (sc_keys c) (sc_xnames c)) 0.
 
 Definition chk_kv (rc : rowchk) (t : scase * list ostep) : bool :=
   walk (kv_step rc) (snap0 (fst t)) (sc_steps (fst t)) (snd t).
@@ -542,7 +542,7 @@ Definition chk_step_C11 : step_chk := fun prev x o ob =>
       end
   | SPurge => strs_eqb (sn_colls prev) (sn_colls post)
   | SDump _ _ => rows_eqb (sn_rows prev) (sn_rows post) && strs_eqb (sn_colls prev) (sn_colls post)
-  | SExpire => strs_eqb (sn_colls prev) (sn_colls post)
+  | SExpire | SReopen => strs_eqb (sn_colls prev) (sn_colls post)
   end.
 
 (* C05: PurgeTombstones removes exactly the body-less documents and reports their number *)
@@ -602,3 +602,103 @@ Definition chk_C18_kv := chk_kv chk_row_C18.
 
 Definition chk_C05_full (t : scase * list ostep) : bool :=
   chk_C05_kv t && walk chk_step_purge (snap0 (fst t)) (sc_steps (fst t)) (snd t).
+
+(* ------------------------------------------------------------------------------------------ *)
+(* C14: the expiry in force is the one the most recent write or touch set                       *)
+
+Definition oexp (e : option N) (dflt : N) : N := match e with Some x => x | None => dflt end.
+
+(* the expiry a successful call leaves, from its own arguments (None: whatever the document had) *)
+Definition expected_exp (x : sctx) (op : kop) (pre : option docview) : option N :=
+  let ab := abs_exp (x_now x) in
+  let prev := match pre with Some d => v_exp d | None => 0 end in
+  match op with
+  | KAdd e _ | KAddRaw e _ | KIncr _ _ e | KTouch e | KGetAndTouch e => Some (ab e)
+  | KSet e p _ | KSetRaw e p _ => Some (if p then match pre with Some d => v_exp d | None => ab e end else ab e)
+  | KWriteCas e _ _ _ _ _ => Some (ab e)
+  | KRemove _ | KDelete | KDeleteWithXattrs _ => Some 0
+  | KSetWithMeta _ _ e _ _ _ | KDeleteWithMeta _ _ e _ => Some e
+  | KSetXattrs _ | KRemoveXattrs _ _ | KDeleteSubDocPaths _ => Some prev
+  | KUpdateXattrs e _ _ _ | KUpdateXattrDeleteBody _ e _ _ _ | KWriteTombstoneWithXattrs e _ _ _ _ _ => Some (ab e)
+  | KWriteWithXattrs e _ _ _ _ p _ | KWriteResurrectionWithXattrs e _ _ p _ => Some (if p then prev else ab e)
+  | KUpdate e (USet _ ne) | KUpdate e (UAppend _ ne) | KUpdate e (UDelete ne) => Some (ab (oexp ne e))
+  | KUpdate _ (UExpOnly e) => Some (ab e)
+  | KWriteSubDoc _ _ _ | KSubdocInsert _ _ _ => Some 0
+  | KWriteUpdateWithXattrs (WUResult u) _ => Some (ab (oexp (wu_expiry u) 0))
+  | _ => None
+  end.
+
+Definition chk_row_C14 : rowchk := fun key coll x op pre resp evs post =>
+  if mutated op resp then
+    match post, expected_exp x op pre with
+    | Some d, Some e => v_exp d =? e
+    | _, _ => true
+    end
+  else same_view pre post.
+
+Definition covers (next e : N) : bool := (e =? 0) || (negb (next =? 0) && (next <=? e)).
+
+Definition snap_next (s : snapshot) : N := match sn_lastcas s with (_, n) :: _ => n | [] => 0 end.
+Definition row_exp (o : obsrow) : N := match o_exp o with RNum e => e | _ => 0 end.
+
+(* after every step: a timer is armed at or before the earliest pending expiry; a firing of the timer
+   at time t tombstones every document with 0 < exp <= t and leaves every other document alone *)
+Definition chk_step_C14 : step_chk := fun prev x o ob =>
+  let post := os_snap ob in
+  forallb (fun e => covers (snap_next post) (row_exp (snd e))) (sn_rows post)
+  && match o with
+     | SExpire =>
+         forallb (fun e => match look (fst e) (sn_rows post) with
+                           | Some o1 =>
+                               let e0 := row_exp (snd e) in
+                               if (0 <? e0) && (e0 <=? x_now x)
+                               then negb (o_exists o1) && (row_exp o1 =? 0)
+                                    && existsb (fun f => String.eqb (f_key f) (snd (fst e)) && (if fopcode_eq_dec (f_op f) FDeletion then true else false)) (os_live ob)
+                               else obsrow_eqb (snd e) o1
+                           | None => false
+                           end) (sn_rows prev)
+     | SKv _ _ _ => kv_step chk_row_C14 prev x o ob
+     | _ => true
+     end.
+
+Definition chk_C14_kv (t : scase * list ostep) : bool :=
+  walk chk_step_C14 (snap0 (fst t)) (sc_steps (fst t)) (snd t).
+
+(* ------------------------------------------------------------------------------------------ *)
+(* C14 in real time (family ttl): for each key, when a poll last saw it, when a poll first missed it
+   (wall-clock milliseconds just before and just after that read), whether a deletion event arrived *)
+
+Record ttl_obs := mkTtlObs {
+  to_coll : string; to_key : string;
+  to_last_present : N;
+  to_first_missing : option (N * N);
+  to_del_event : bool
+}.
+Record ttl_run := mkTtlRun { tr_reopen_ms : N; tr_rows : list ttl_obs }.
+
+Definition chk_ttl_row (s : store) (reopen_ms : N) (o : ttl_obs) : bool :=
+  match coll_id s (to_coll o) with
+  | None => true
+  | Some cid =>
+      match get_doc s (cid, to_key o) with
+      | Some r0 =>
+          if is_some (r_value r0) then
+            if r_exp r0 =? 0 then is_none (to_first_missing o)            (* expiry 0: never *)
+            else
+              match to_first_missing o with
+              | None => false                                             (* never tombstoned *)
+              | Some (before, after) =>
+                  let t := r_exp r0 * 1000 in
+                  (t <=? after)                                           (* readable at every instant before T *)
+                  && (to_last_present o <=? before)                       (* and it does not come back *)
+                  && (before <=? N.max t reopen_ms + 3000)                (* tombstoned within 3 s after T (or after the reopen) *)
+                  && to_del_event o                                       (* with a deletion event *)
+              end
+          else true
+      | None => true
+      end
+  end.
+
+Definition chk_ttl (t : scase * ttl_run) : bool :=
+  let s := sfinal_from store0 (sc_steps (fst t)) in
+  forallb (chk_ttl_row s (tr_reopen_ms (snd t))) (tr_rows (snd t)).
